@@ -18,18 +18,30 @@ PROP = dict(
                "table).  For every interleaving (window model): C16_once_schedules (never twice, exactly "
                "once when the old handler is through), C16_cancel_schedules_refuted + C16_cancel_modulo_findings "
                "(cancellation holds exactly when the delayed will is registered before the new connection's "
-               "willDelayed.Delete).  That the four findings are the ONLY violations of the sequential model is decided on "
-               "every run (monitor on the real broker's observations + exact model correspondence) but not proved for all "
-               "histories (partial).",
+               "willDelayed.Delete).  For every decodable history of the sequential model: C16_modulo_findings_partial - every "
+               "violation mon16 reports with a safety tag (published twice, after a normal DISCONNECT, although cancelled by "
+               "a resuming connection, before min(delay, session end), while alive / without a will, altered content, "
+               "dropped by a clean start) is one of the known findings (proved through a coupling invariant between the "
+               "monitor's statuses and the model state, Session/LifeProofs16M.v); C16_never_unexpected_after_normal_or_altered "
+               "- three of these clauses have no finding at all.  NOT proved for all histories (partial; the full statement "
+               "is C16_modulo_findings_statement): the liveness tags V16_missing / V16_missing_takeover / V16_late (a will "
+               "that is due IS published) and V16_retain; they are decided on every run (monitor on the real broker's "
+               "observations + exact model correspondence).",
     level_note="Trusted: Coq kernel, extraction, OCaml driver, Go broker harness; will publications are recognised at an "
-               "observer connection (QoS 2, Retain As Published) by a payload unique to the connection.  Modelled not "
+               "observer connection (QoS 2, Retain As Published) by a payload unique to the connection.  Nondeterminism of the broker allowed by the comparison: sendDelayedLWT ranges over a Go map, so the order "
+               "in which the entries due in one tick are published differs from run to run (and with it which of two retained "
+               "wills on one topic stays retained); the replay rearranges the model's table into the observed order before a "
+               "tick (a permutation, C16_tick_order_is_a_permutation; the invariant and the all-histories theorem do not depend "
+               "on the table order, C16_invariant_ignores_table_order / C16_modulo_findings_partial_from).  Modelled not "
                "verified: ACL / topic validation of the will (C17), the message expiry stamped on delayed wills (C25), "
                "user properties.",
     engines=[dict(hx="life", args=["C16"], model="life16"),
              dict(hx="takeover_sched", args=["C16"], model="takeover_sched")],
     theorems=["C16_refuted_takeover_delayed", "C16_refuted_delay_uncapped", "C16_refuted_delay_fixed_at_connect",
               "C16_refuted_clean_reconnect",
-              "C16_refuted_delayed_retain", "C16_content", "C16_publication_sources", "C16_once_schedules",
+              "C16_refuted_delayed_retain", "C16_modulo_findings_partial",
+              "C16_never_unexpected_after_normal_or_altered", "C16_tick_order_is_a_permutation",
+              "C16_invariant_ignores_table_order", "C16_modulo_findings_partial_from", "C16_content", "C16_publication_sources", "C16_once_schedules",
               "C16_cancel_schedules_refuted", "C16_cancel_modulo_findings"],
     model_files="coq/Session/Lifecycle.v coq/Conc/Takeover.v",
     rule="scenario product: 10 will configurations (delay 0/3/6/8, retain, QoS 0-2, expiry absent/0/4/6/20, MQTT 3/4/5) x 9 "
